@@ -4,7 +4,9 @@
    planners byte for byte on every run).   SQL semantics for window_semantic: model/SqlEval.v (C07, trusted). *)
 From Coq Require Import List ZArith NArith QArith String Ascii Bool.
 From Qryn Require Import lib.Strs lib.CivilDate model.Sql model.SqlRender model.SqlEval model.Logql model.LogqlPlan model.Scans
-  proofs.ScansProofs proofs.ScansPlanProofs proofs.ScansSemProofs.
+  model.ScanCases model.ScansTq proofs.ScansProofs proofs.ScansPlanProofs proofs.ScansSemProofs proofs.ScansTqProofs proofs.ScansPromProofs proofs.ScansLabelProofs.
+From Qryn Require Import model.PromSel model.ScansPlanners.
+From Qryn Require model.TqSql model.Traceql model.TraceqlPlan.
 Import ListNotations.
 Open Scope Z_scope.
 
@@ -92,11 +94,17 @@ Theorem from_day_covers : forall off from t,
 Proof. exact from_day_covers_zone. Qed.
 Print Assumptions from_day_covers.
 
-(* ... and not for every zone of the writer (C04 owns the writer-side date) *)
-Theorem from_day_covers_all_zones_refuted :
-  exists off from t, from <= t /\ ~ from_day from <= writer_day off t.
-Proof. destruct from_day_misses_western_writer as [from [t H]]. exists (-18000), from, t. exact H. Qed.
-Print Assumptions from_day_covers_all_zones_refuted.
+(* ... for EVERY zone of the writer process the rows are filed under their UTC day (series rows: fix 433b3ba, C04;
+   trace attribute rows: fix 71ffd5d, model ScanCases.attrs_stored_day tied to the real write path by harness
+   spandate): every date bound the reader writes for a window [from, to) - date >= day(from), date >=
+   FormatFromDate(from), date <= day(to) - keeps the index rows of every span inside the window.
+   (Replaces from_day_covers_all_zones_refuted: the witness is proofs.ScansProofs.attrs_day_local_lost, the
+   behaviour before the fix.) *)
+Theorem index_date_range_covers_window : forall tz from to t,
+  from <= t < to ->
+  day_of_ns from <= attrs_stored_day tz t <= day_of_ns to /\ from_day from <= attrs_stored_day tz t.
+Proof. exact attrs_day_in_bounds. Qed.
+Print Assumptions index_date_range_covers_window.
 
 (* ---- window_semantic, relative to SqlEval ---------------------------------------------------------
    a row that passes every conjunct of a timestamp-bounded scan lies inside the widened window *)
@@ -125,6 +133,109 @@ Theorem window_semantic_complete : forall re_match parse_float json_get hash_lab
 Proof. exact window_row_passes_ts. Qed.
 Print Assumptions window_semantic_complete.
 
+(* ---- label values and series (model/ScansPlanners.v: ValuesPlanner, SeriesPlanner, MultiStreamSelectPlanner; tied to
+   the statements of /loki/api/v1/label/{name}/values, /loki/api/v1/series, /api/v1/label/{name}/values and
+   /api/v1/series by text equality on every run) ------------------------------------------------------------
+   for every key, list of match[] selectors and context: every read carries the API's type and the index date
+   range date >= FormatFromDate(From), date <= day(To) (the fingerprint sub-selects: the lower bound) *)
+Theorem label_values_every_scan_bounded : forall info c key sels,
+  ctx_tables info c ->
+  match sels with
+  | [] => Forall (scan_bounded info (win c)) (scans (values_planner c key None))
+  | _ => forall q, multi_stream_select c sels = Some q -> Forall (scan_bounded info (win c)) (scans (values_planner c key (Some q)))
+  end.
+Proof. exact label_values_scans_bounded. Qed.
+Print Assumptions label_values_every_scan_bounded.
+
+Theorem series_every_scan_bounded : forall info c sels q,
+  ctx_tables info c -> multi_stream_select c sels = Some q ->
+  Forall (scan_bounded info (win c)) (scans (series_planner c q)).
+Proof. exact series_scans_bounded. Qed.
+Print Assumptions series_every_scan_bounded.
+
+(* ---- Prometheus Select (model/PromSel.v, C17; tied byte for byte to reader/promql/transpiler and
+   CLokiQuerier.transpileLabelMatchers) ------------------------------------------------------------------------
+   For EVERY hint record, matcher list, regex oracle, table layout and database name: every base-table read of the
+   statement Select sends (samples_v3 / metrics_15s, the time_series_gin reads of fp_sel and of every exclusion
+   sub-query) carries type IN (2,0) and is bounded by the hint window: every row with Start < t <= End is read and
+   nothing outside [Start, End + 1 ms) (milliseconds as nanoseconds); index reads have date >= FormatFromDate(Start). *)
+Theorem prom_every_scan_bounded : forall re_full cluster db h ms,
+  Forall (scan_bounded table_info (prom_win h)) (scans (fst (querier_transpile re_full cluster db h ms))).
+Proof. exact prom_select_scans_bounded. Qed.
+Print Assumptions prom_every_scan_bounded.
+
+(* a Select planned on the raw samples reads exactly the closed millisecond window [Start, End] (fix f155c1f) *)
+Theorem prom_raw_every_scan_exact : forall re_full cluster db h ms,
+  use_raw_data h = true ->
+  Forall (scan_bounded table_info (prom_raw_win h)) (scans (fst (querier_transpile re_full cluster db h ms))).
+Proof. exact prom_raw_select_scans_exact. Qed.
+Print Assumptions prom_raw_every_scan_exact.
+
+(* ... the down-sampled path does not: InitDownsamplePlanner still writes timestamp_ns > Start (the 15-second row
+   stamped exactly Start is left out) *)
+Theorem prom_downsample_closed_window_refuted :
+  use_raw_data ds_hints = false /\
+  ~ Forall (scan_bounded table_info (prom_raw_win ds_hints))
+           (scans (fst (querier_transpile (fun _ _ => true) false "qryn" ds_hints [m_up; m_re]))).
+Proof. exact prom_downsample_start_exclusive. Qed.
+Print Assumptions prom_downsample_closed_window_refuted.
+
+(* both transpilers under any context whose tables are classified as the schema has them *)
+Theorem prom_transpilers_every_scan_bounded : forall info c W re_full h ms,
+  ctx_tables info c -> pwin_ok true c W ->
+  Forall (scan_bounded info W) (scans (transpile_label_matchers re_full h c ms)) /\
+  Forall (scan_bounded info W) (scans (transpile_label_matchers_downsample re_full h c ms)).
+Proof. exact prom_transpilers_scans_bounded. Qed.
+Print Assumptions prom_transpilers_every_scan_bounded.
+
+(* the label fetch of labelsGetter: a time_series read whose date range covers the days of its window ... *)
+Theorem prom_labels_fetch_date_covers : forall cluster fps from_ms to_ms,
+  Forall (fun sc => ti_class (table_info (sc_table sc)) = CIndex /\ date_covers (fetch_win from_ms to_ms) sc)
+         (scans (labels_fetch cluster fps from_ms to_ms)).
+Proof. exact labels_fetch_date_covers. Qed.
+Print Assumptions prom_labels_fetch_date_covers.
+
+(* ... and no type conjunct (finding prom-labels-fetch-untyped) *)
+Theorem prom_labels_fetch_bounded_refuted : forall cluster fps from_ms to_ms,
+  ~ Forall (scan_bounded table_info (fetch_win from_ms to_ms)) (scans (labels_fetch cluster fps from_ms to_ms)).
+Proof. exact labels_fetch_untyped. Qed.
+Print Assumptions prom_labels_fetch_bounded_refuted.
+
+(* ---- TraceQL planners (model/TraceqlPlan.v, C11; tied byte for byte to clickhouse_transpiler) ----------------
+   tq_scans enumerates the base-table reads of a TqSql tree (model/ScansTq.v).  For EVERY script, mode (search /
+   tags / values), call number and planner context whose table names are classified as the schema has them and
+   whose date texts are the UTC days of a window between 1970-01-01 00:30 and 2100: every read of the statement
+   plan q m c n is bounded by the window [from, to) (index reads: date >= day(from), date <= day(to) and the
+   timestamp bounds; tempo_traces reads of the attribute-less search: timestamp bounds), or is one of the two
+   reads of the final search statement that fetch the spans of the traces found (trace_id IN (trace_ids)). *)
+Theorem traceql_every_scan_confined : forall info c q m n s,
+  tq_tables info c -> tq_ctx_ok c -> TraceqlPlan.plan q m c n = TraceqlPlan.Ok s ->
+  Forall (fun sc => scan_bounded info (tq_win c) sc \/ trace_restricted sc) (tq_scans s).
+Proof. exact tq_plan_scans_confined. Qed.
+Print Assumptions traceql_every_scan_confined.
+
+(* the index part of a search (everything below the CTE index_grouped: attribute conditions, attribute-less
+   search, && / || of selectors, aggregators, limit): every read is bounded *)
+Theorem traceql_index_every_scan_bounded : forall info c q n s,
+  tq_tables info c -> tq_ctx_ok c -> TraceqlPlan.plan_index q c n = TraceqlPlan.Ok s ->
+  Forall (scan_bounded info (tq_win c)) (tq_scans s).
+Proof. exact tq_index_scans_bounded. Qed.
+Print Assumptions traceql_index_every_scan_bounded.
+
+(* tags and tag values (with or without a selector): every read is bounded *)
+Theorem traceql_tags_every_scan_bounded : forall info c q m n s,
+  tq_tables info c -> tq_ctx_ok c -> m <> TraceqlPlan.MSearch -> TraceqlPlan.plan q m c n = TraceqlPlan.Ok s ->
+  Forall (scan_bounded info (tq_win c)) (tq_scans s).
+Proof. exact tq_tags_scans_bounded. Qed.
+Print Assumptions traceql_tags_every_scan_bounded.
+
+(* full strength is false for a search: the final statement reads tempo_traces without a timestamp bound *)
+Theorem traceql_every_scan_bounded_refuted :
+  exists s, TraceqlPlan.plan tq_q0 TraceqlPlan.MSearch tq_ctx0 1 = TraceqlPlan.Ok s /\
+            ~ Forall (scan_bounded table_info (tq_win tq_ctx0)) (tq_scans s).
+Proof. exact tq_search_fetch_unbounded. Qed.
+Print Assumptions traceql_every_scan_bounded_refuted.
+
 (* ---- the hypotheses are met by non-trivial values ------------------------------------------------- *)
 Example partial_guard_met :
   no_slf plain_query = true /\ plan_log plain_query true = Some plain_plan /\
@@ -143,3 +254,26 @@ Example tables_single_node : ctx_tables table_info std_ctx.
 Proof. exact std_ctx_tables. Qed.
 Example tables_cluster : ctx_tables table_info cluster_ctx.
 Proof. exact cluster_ctx_tables. Qed.
+Example traceql_guards_met :
+  tq_tables table_info tq_ctx0 /\ tq_ctx_ok tq_ctx0 /\
+  (match tq_res tq_q0 TraceqlPlan.MSearch with Some s => Nat.leb 3 (List.length (tq_scans s)) | None => false end = true) /\
+  (match tq_res tq_q1 TraceqlPlan.MSearch with Some s => Nat.leb 5 (List.length (tq_scans s)) | None => false end = true) /\
+  (match tq_res tq_q0 TraceqlPlan.MTags with Some s => Nat.leb 2 (List.length (tq_scans s)) && tq_all_bounded_b s | None => false end = true) /\
+  (match tq_res tq_q0 (TraceqlPlan.MValues "service.name") with Some s => Nat.leb 2 (List.length (tq_scans s)) && tq_all_bounded_b s | None => false end = true).
+Proof. split; [exact tq_ctx0_tables|]. split; [exact tq_ctx0_ok|]. exact tq_examples. Qed.
+Example stored_day_is_zone_free : attrs_stored_day (-18000) (1704852000 * 1000000000) = day_of_ns (1704852000 * 1000000000)
+  /\ attrs_stored_day_local (-18000) (1704852000 * 1000000000) = day_of_ns (1704852000 * 1000000000) - 1.
+Proof. split; reflexivity. Qed.
+Example prom_guards_met :
+  use_raw_data raw_hints = true /\ use_raw_data ds_hints = false /\
+  Nat.leb 5 (List.length (scans (fst (querier_transpile (fun _ _ => true) true "qryn" raw_hints [m_up; m_re])))) = true /\
+  Nat.leb 5 (List.length (scans (fst (querier_transpile (fun _ _ => true) false "qryn" ds_hints [m_up; m_re])))) = true.
+Proof. exact prom_examples. Qed.
+Example prom_ctx_window_met : forall cluster db h, ctx_tables table_info (prom_ctx cluster db h) /\ pwin_ok true (prom_ctx cluster db h) (prom_win h).
+Proof. intros. split; [apply prom_ctx_tables | apply prom_win_ok]. Qed.
+Example label_guards_met :
+  (match multi_stream_select cluster_ctx [[m_ab]; [m_ab]] with
+   | Some q => Nat.leb 3 (List.length (scans (series_planner cluster_ctx q))) && Nat.leb 3 (List.length (scans (values_planner std_ctx "job"%string (Some q))))
+   | None => false end = true)
+  /\ List.length (scans (values_planner std_ctx "job"%string None)) = 1%nat.
+Proof. exact label_examples. Qed.
